@@ -17,11 +17,10 @@ CFG = dict(
          "violation; the many-block output is also compared with the Lean model. Non-trivial = at least one record was emitted; distinct by input line.",
     nontrivial=["records"],
     jobs=seeds(1, 3),
-    lean_files=["Trig", "Pipe", "PipeJudge", "C08", "C09", "Edge", "Emt", "EmtShift", "EmtScan", "EmtLoop", "EmtSim", "EmtRun", "EmtStep", "EdgeGlobal"],
+    lean_files=["Trig", "Pipe", "PipeJudge", "C08", "C09", "Edge", "Emt", "EmtShift", "EmtScan", "EmtLoop", "EmtSim", "EmtRun", "EmtStep", "EmtSafe", "EdgeGlobal", "Auto"],
     trusted_base=_PIPE_TB,
     assumptions=["the kink-fit oracle moves a trigger by at least -1 sample (the real fit: -1, 0 or +1)",
-                 "absence of out-of-range accesses ACROSS blocks is stated in Lean (C08_no_oob_full) and decided on the real code by the correspondence run (a crash is a violation); "
-                 "per block it is proved (C08_search_in_bounds)"],
+                 "C08_no_oob additionally assumes shift <= +1"],
     timeout=dict(quick=900, thorough=3600),
 )
 MANIFEST = dict(
@@ -30,12 +29,11 @@ MANIFEST = dict(
          "the single-block run (C08_block_independent; simulation between the incremental state machine with its end-of-block flush and the single scan: locality of the search on "
          "the retained buffer, prefix stability, split of a scan at an intermediate limit, the flush emits the same record the next edge would). Also proved: fixed-length modes give "
          "full-length records, at most one record per edge, variable-length records never overlap nor pass the next edge, the search of a block never reads outside the buffer. "
-         "Record contents are C01_block_exact. The REAL pipeline is run cut into blocks and as a single block on every case and the record sequences must be identical; a crash is "
+         "Never indexes outside is PROVED across blocks too (C08_no_oob: for any stream, any block lengths incl. empty or shorter than a record, invariant EmtSafe - the pending edge is recorded, absent, or recent enough that its whole record is retained). Record contents are C01_block_exact. The REAL pipeline is run cut into blocks and as a single block on every case and the record sequences must be identical; a crash is "
          "a violation; the output is also compared with the Lean model.",
     note="Trusted: Lean 4.33 kernel (axioms propext, Classical.choice, Quot.sound only; audited every run); the hand-written model is tied to the Go code only by "
-         "differential testing with seeded generators (not a proof). Partial on one clause: bounds ACROSS blocks (C08_no_oob_full: retained history always covers the deferred "
-         "edge's record) are stated but decided only at run time (crash = violation). The least-squares kink fit is an oracle table obtained from the real zeroThreshold; the "
-         "theorem quantifies over all oracles with shift >= -1. Two crash defects found through this pipeline were repaired in /repo (5067219, fbc46c8).",
+         "differential testing with seeded generators (not a proof). The least-squares kink fit is an oracle table obtained from the real zeroThreshold; the "
+         "theorems quantify over all oracles with shift >= -1 (block independence) / in {-1,0,+1} (bounds). Two crash defects found through this pipeline were repaired in /repo (5067219, fbc46c8).",
     technique="Lean 4 simulation proof over an executable model; one-block vs many-block oracle and model tied to the Go code by a differential correspondence run",
 )
 THEOREMS = [
@@ -45,6 +43,8 @@ THEOREMS = [
     ("DastardV.Props.C08", "DastardV.C08.C08_search_in_bounds"),
     ("DastardV.Props.C08", "DastardV.C08.C08_search_local"),
     ("DastardV.Props.C08", "DastardV.C08.C08_block_independent"),
+    ("DastardV.Props.C08", "DastardV.C08.C08_no_oob"),
+    ("DastardV.Lemmas.EmtSafe", "DastardV.Trig.emtSafe_step"),
     ("DastardV.Lemmas.EmtSim", "DastardV.Trig.sim_loop"),
     ("DastardV.Lemmas.EmtStep", "DastardV.Trig.stepEmt_inv"),
     ("DastardV.Lemmas.EmtLoop", "DastardV.Trig.emtLoop_split"),
